@@ -234,15 +234,56 @@ pub fn mixed_cycle_world(world: &World) -> bool {
     parsed.map(|(p, _)| crate::wgen::mixed_cycle(&p)).unwrap_or(false)
 }
 
+/// textual test for worlds outside the fragment parser: a trait without parameters has a blanket impl
+/// (`impl<T> Tr for T`) and at least one more impl — the blanket header unifies with every other header
+pub fn blanket_overlap(items: &[String]) -> bool {
+    let mut by_trait: BTreeMap<String, (usize, bool)> = BTreeMap::new();
+    for it in items {
+        let it = it.trim();
+        if !it.starts_with("impl") || it.starts_with("impl !") || it.contains(" !") {
+            continue;
+        }
+        let (params, rest) = match it.strip_prefix("impl<") {
+            Some(r) => match r.find('>') {
+                Some(j) => (r[..j].split(',').map(|s| s.trim().to_string()).collect::<Vec<_>>(), r[j + 1..].trim()),
+                None => continue,
+            },
+            None => (vec![], it[4..].trim()),
+        };
+        let head = rest.split(" where ").next().unwrap_or("").split('{').next().unwrap_or("").trim();
+        if let Some((tr, ty)) = head.split_once(" for ") {
+            let tr = tr.trim();
+            if tr.contains('<') {
+                continue;
+            }
+            let e = by_trait.entry(tr.to_string()).or_insert((0, false));
+            e.0 += 1;
+            if params.iter().any(|p| p == ty.trim()) {
+                e.1 = true;
+            }
+        }
+    }
+    by_trait.values().any(|(n, blanket)| *blanket && *n >= 2)
+}
+
+/// `+overlap`: two clauses for the same trait with unifiable heads — two positive impls, or (goal-specific) a
+/// hypothesis of the goal and an impl; textual blanket-impl test for worlds the fragment parser does not read
+pub fn overlap_tag(world: &World, goal: usize) -> bool {
+    match crate::wgen::parse_world(world) {
+        Ok((prog, goals)) => crate::wgen::has_overlapping_impls(&prog) || matches!(goals.get(goal), Some(Ok(ast)) if crate::wgen::hyp_overlaps_impl(&prog, ast)),
+        Err(_) => blanket_overlap(&world.items),
+    }
+}
+
 pub fn static_tags(world: &World, goal: usize) -> String {
     let mut t = String::new();
     if nonlinear_impl_header(&world.items.join("\n")) {
         t.push_str("+nonlinear");
     }
+    if overlap_tag(world, goal) {
+        t.push_str("+overlap");
+    }
     if let Ok((prog, goals)) = crate::wgen::parse_world(world) {
-        if crate::wgen::has_overlapping_impls(&prog) {
-            t.push_str("+overlap");
-        }
         if let Some(Ok(ast)) = goals.get(goal) {
             let mut gp = vec![];
             ast.preds(&mut gp);
